@@ -99,7 +99,7 @@ def unique_init(fn, d, use=None):
     ws = local_writes(fn, d)
     if 'init' in nd and not ws:
         return nd['init']
-    if ('init' not in nd or _is_default_init(fn, nd['init'])) and len(ws) == 1:
+    if ('init' not in nd or _is_default_init(fn, nd['init']) or use is not None) and len(ws) == 1:
         w = ws[0]
         wn = fn.nodes[w]
         rhs = None
@@ -312,33 +312,164 @@ class Cfg:
         return False
 
     # ---- R-GATE ----------------------------------------------------------------
-    def reach_avoiding(self, is_pass_fact, targets, start=None):
-        """BFS from entry (or `start` block) along edges that do NOT carry a fact accepted by
-        is_pass_fact.  targets: set of block ids.  Returns {target block: witness path} for the
-        targets that are reachable."""
+    # ---- stable atoms (path sensitivity for repeated tests of an unchanging condition) -----
+    CONST_QUERIES = ('has_value', 'operator bool', 'empty', 'end', 'begin', 'cend', 'cbegin', 'size', 'count',
+                     'contains', 'find')
+
+    def stable_key(self, node):
+        """A textual key for a condition whose value cannot change between two evaluations in one
+        activation: built only from literals, locals/parameters that are never re-assigned (or
+        assigned exactly once, dominating the use), member accesses on those, const query calls
+        and operators.  None if the expression is not of that shape."""
+        fn = self.fn
+        cache = self.__dict__.setdefault('_sk', {})
+        if node in cache:
+            return cache[node]
+        ok = True
+        for i in fn.walk(node):
+            nd = fn.nodes[i]
+            k = nd['k']
+            if k in ('IntegerLiteral', 'CXXBoolLiteralExpr', 'StringLiteral', 'CharacterLiteral', 'CXXNullPtrLiteralExpr',
+                     'ParenExpr', 'ImplicitCastExpr', 'ExprWithCleanups', 'MaterializeTemporaryExpr',
+                     'CXXBindTemporaryExpr', 'CXXRewrittenBinaryOperator', 'ConstantExpr', 'CXXThisExpr'):
+                continue
+            if k == 'DeclRefExpr':
+                dk = nd.get('dk')
+                if dk in ('Function', 'CXXMethod', 'EnumConstant'):
+                    continue
+                if dk in ('Var', 'ParmVar'):
+                    if nd.get('g'):
+                        if 'const' in nd.get('t', '') or 'cv' in nd:
+                            continue
+                        ok = False
+                        break
+                    ws = local_writes(fn, nd['d'])
+                    if not ws:
+                        continue
+                    if unique_init(fn, nd['d'], i) is not None:
+                        continue
+                ok = False
+                break
+            if k == 'MemberExpr':
+                if nd.get('mk') == 'Field':
+                    # fields of `this` may be changed by callees; only fields of stable locals
+                    base = fn.strip(fn.kids(i)[0]) if fn.kids(i) else None
+                    if base is not None and fn.nodes[base]['k'] == 'CXXThisExpr':
+                        ok = False
+                        break
+                continue
+            if k == 'CXXMemberCallExpr':
+                c = nd.get('callee', '')
+                if nd.get('cconst') and c.split('::')[-1] in self.CONST_QUERIES:
+                    continue
+                ok = False
+                break
+            if k == 'CXXOperatorCallExpr':
+                if nd.get('op') in ('==', '!=', '<', '>', '<=', '>=', '<=>', '*', '->', '!'):
+                    continue
+                ok = False
+                break
+            if k in ('BinaryOperator',) and nd.get('op') in ('==', '!=', '<', '>', '<=', '>=', '&&', '||', '<=>'):
+                continue
+            if k == 'UnaryOperator' and nd.get('op') in ('!', '*', '-'):
+                continue
+            if k in ('CXXConstructExpr', 'CXXTemporaryObjectExpr') and ('__unspec' in nd.get('t', '') or nd.get('copymove')):
+                continue
+            ok = False
+            break
+        key = ('%s' % fn.text(node)) if ok else None
+        cache[node] = key
+        return key
+
+    def tracked_keys(self):
+        """Stable keys that are tested by at least two branch blocks."""
+        tk = getattr(self, '_tk', None)
+        if tk is None:
+            count = {}
+            for bid in self.blocks:
+                keys = set()
+                for _s, _l, facts in self.out_edges(bid):
+                    for kind, node, _v in facts:
+                        if kind == 'bool':
+                            k = self.stable_key(node)
+                            if k is not None:
+                                keys.add(k)
+                for k in keys:
+                    count[k] = count.get(k, 0) + 1
+            tk = {k for k, c in count.items() if c >= 2}
+            self._tk = tk
+        return tk
+
+    def edge_stable(self, bid):
+        """per out-edge: list of (key, value) for tracked stable atoms."""
+        es = self.__dict__.setdefault('_es', {})
+        if bid not in es:
+            tk = self.tracked_keys()
+            res = []
+            for _s, _l, facts in self.out_edges(bid):
+                kv = {}
+                for kind, node, v in facts:
+                    if kind == 'bool':
+                        k = self.stable_key(node)
+                        if k in tk:
+                            kv[k] = v
+                res.append(tuple(sorted(kv.items())))
+            es[bid] = res
+        return es[bid]
+
+    # ---- R-GATE ----------------------------------------------------------------
+    def reach_avoiding(self, is_pass_fact, targets, start=None, max_states=300000):
+        """Search from entry (or `start` block) along edges that do NOT carry a fact accepted by
+        is_pass_fact, pruning paths that take contradictory branches on a stable condition.
+        targets: set of block ids.  Returns {target block: witness path} for reachable targets."""
         start = self.entry if start is None else start
-        prev = {start: None}
-        dq = deque([start])
-        while dq:
-            b = dq.popleft()
-            for s, label, facts in self.out_edges(b):
+        s0 = (start, ())
+        prev = {s0: None}
+        dq = deque([s0])
+        found = {}
+        targets = set(targets)
+        if start in targets:
+            found[start] = s0
+        while dq and len(found) < len(targets):
+            st = dq.popleft()
+            b, known = st
+            kd = dict(known)
+            stab = self.edge_stable(b)
+            for idx, (s, label, facts) in enumerate(self.out_edges(b)):
                 if any(is_pass_fact(f) for f in facts):
                     continue
-                if s not in prev:
-                    prev[s] = (b, label)
-                    dq.append(s)
+                contradiction = False
+                nk = None
+                for k, v in stab[idx]:
+                    if k in kd:
+                        if kd[k] != v:
+                            contradiction = True
+                            break
+                    else:
+                        if nk is None:
+                            nk = dict(kd)
+                        nk[k] = v
+                if contradiction:
+                    continue
+                ns = (s, tuple(sorted(nk.items())) if nk is not None else known)
+                if ns not in prev:
+                    prev[ns] = (st, label)
+                    dq.append(ns)
+                    if s in targets and s not in found:
+                        found[s] = ns
+                    if len(prev) > max_states:
+                        raise AnalysisBroken('path search exceeded %d states in %s' % (max_states, self.fn.q))
         res = {}
-        for t in targets:
-            if t in prev:
-                path = []
-                x = t
-                while prev[x] is not None:
-                    pb, label = prev[x]
-                    d = self.describe_edge(pb, label) if label else None
-                    if d:
-                        path.append(d)
-                    x = pb
-                res[t] = list(reversed(path))
+        for t, st in found.items():
+            path = []
+            x = st
+            while prev[x] is not None:
+                px, label = prev[x]
+                d = self.describe_edge(px[0], label) if label else None
+                if d:
+                    path.append(d)
+                x = px
+            res[t] = list(reversed(path))
         return res
 
     def pass_edges(self, is_pass_fact):
